@@ -45,7 +45,7 @@ import numpy as np
 import core
 
 LEAN_MODULE = "Optyx.Props.C14"
-EXTRA_MODULES = ["Optyx.Props.PinsC14", "Optyx.Props.StateTie", "Optyx.Props.BuildTie", "Optyx.Props.VarsStepTie", "Optyx.Props.DegreeEntryTie", "Optyx.Props.SpineTie", "Optyx.Props.CompileEntryTie"]   # transcription anchors (harness/source_pins.py)
+EXTRA_MODULES = ["Optyx.Props.PinsC14", "Optyx.Props.StateTie", "Optyx.Props.BuildTie", "Optyx.Props.VarsStepTie", "Optyx.Props.DegreeEntryTie", "Optyx.Props.SpineTie", "Optyx.Props.CompileEntryTie", "Optyx.Props.ParamTie"]   # transcription anchors (harness/source_pins.py)
 THEOREMS = [
     "Optyx.Props.C14.cache_transparent",
     "Optyx.Props.C14.cache_transparent_run",
@@ -78,6 +78,12 @@ THEOREMS = [
     "Optyx.Props.CompileEntryTie.dictFn_eq",
     "Optyx.Props.CompileEntryTie.param_run",
     "Optyx.Props.CompileEntryTie.compiledExpression_value",
+    "Optyx.Props.ParamTie.paramSet_raises_iff",
+    "Optyx.Props.ParamTie.paramSet_stores_converted",
+    "Optyx.Props.ParamTie.scalar_set_stores",
+    "Optyx.Props.ParamTie.reads_slot",
+    "Optyx.Props.ParamTie.asParameterValue_spec",
+    "Optyx.Props.ParamTie.read_after_set",
     "Optyx.Props.PinsC14.anchors",
 ]
 ASSUMPTIONS = [
